@@ -60,9 +60,25 @@ Theorem C11_Ibuf_spec : forall K A m,
   st_alloc m = bytes K m /\
   pc_alive m = true /\
   (forall o, ~ In (EBad Underflow o) (log m)) /\
-  (A <> [] -> st_collecting m = true).
+  (A <> [] -> st_collecting m = true) /\
+  (forall o, o ∈ pc m -> h_tc (hdr_of m o) = 0).
 Proof. exact Ibuf_spec. Qed.
 Print Assumptions C11_Ibuf_spec.
+
+(** I-tc: every buffered object has tracing counter 0 (the conjunct defect F1 broke; restored
+    by [reset_buffered] when a tracing phase unwinds) *)
+Theorem C11_buffered_tc_zero : forall K A m,
+  Ibuf K A m -> forall o, o ∈ pc m -> h_tc (hdr_of m o) = 0.
+Proof. exact buffered_tc_zero. Qed.
+Print Assumptions C11_buffered_tc_zero.
+
+(** the tracing pass leaves whatever is still buffered with tracing counter 0, on every
+    non-fuel outcome (no hypothesis on the start state) *)
+Theorem C11_trace_pass_tc_zero : forall K P m,
+  (trace_pass K P m).2 <> PFuel ->
+  forall o x, get (trace_pass K P m).1 o = Some x -> o ∈ pc (trace_pass K P m).1 -> h_tc (o_hdr x) = 0.
+Proof. exact BufPass.trace_pass_pcz. Qed.
+Print Assumptions C11_trace_pass_tc_zero.
 
 (** ** B. allocated_bytes / buffered_objects_count / executions_count as observed *)
 Theorem C11_bytes : forall K A self m,
@@ -297,6 +313,23 @@ Example ex_panic :
   = (96, [1%nat], 1, 1, [NM; PC]) /\
   In (ERes RPanicked) (log m).
 Proof. vm_compute. split; [reflexivity|]. split; [reflexivity|]. tauto. Qed.
+(** F1 scenario: x, z, y buffered (pc = [y; z; x]) with y -> x; the pass counts the edge
+    y -> x (tc x = 1 while x is still buffered), then the trace call of z panics: the unwind
+    guard zeroes the counter of x, which stays buffered *)
+Definition cmds_f1 : list cmd :=
+  [CNew (LS 0) 0; CNew (LS 1) 0; CNew (LS 2) 0; CClone (LS 0) (LFA 1 0);
+   CClone (LS 0) (LS 3); CDrop (LS 3); CClone (LS 2) (LS 3); CDrop (LS 3);
+   CClone (LS 1) (LS 3); CDrop (LS 3); CArm KTrace 2; CCollect].
+Example ex_f1 :
+  let m := st K1 cmds_f1 in
+  cleanb m = true /\
+  (pc m, map (fun x => (h_mark (o_hdr x), h_tc (o_hdr x))) (heap m))
+  = ([0%nat], [(PC, 0); (NM, 0); (NM, 0)]) /\
+  In (ERes RPanicked) (log m).
+Proof. vm_compute. split; [reflexivity|]. split; [reflexivity|]. tauto. Qed.
+Example ex_f1_tc : forall o, o ∈ pc (st K1 cmds_f1) -> h_tc (hdr_of (st K1 cmds_f1) o) = 0.
+Proof. apply (C11_buffered_tc_zero K1 []), C11_prog_buf, cleanb_clean. vm_compute. reflexivity. Qed.
+
 Example ex_panic_Ibuf : Ibuf K1 [] (st K1 cmds_p).
 Proof. apply C11_prog_buf, cleanb_clean. vm_compute. reflexivity. Qed.
 
